@@ -439,5 +439,88 @@ def cfg_from(f):
     return cfg_of(f.node)
 
 
+def _listish(flow, name, depth=0):
+    """some definition of the local name is a list display / comprehension / list(...) / a subscript of such"""
+    if depth > 3 or not flow.is_local(name):
+        return False
+    for kind, rhs in flow.defs.get(name, []):
+        if isinstance(rhs, (ast.List, ast.ListComp)):
+            return True
+        if isinstance(rhs, ast.Call) and call_name(rhs) == 'list':
+            return True
+        if isinstance(rhs, ast.Subscript) and isinstance(rhs.value, ast.Name) and rhs.value.id != name and _listish(flow, rhs.value.id, depth + 1):
+            return True
+        if isinstance(rhs, ast.Name) and rhs.id != name and _listish(flow, rhs.id, depth + 1):
+            return True
+    return False
+
+
+def rule_w5(repo):
+    """Highlighted output is a list of (text, colour) pairs, and the code that assembles sequents and
+    argument lists extends such a list in place (commas_join extends its first item).  That is harmless
+    only as long as every printing function hands out a list nobody else holds.  A function that keeps a
+    list it returns (in a memo on the AST node, in a module table, in its argument) hands out the same
+    object twice, and the second reader sees what the first appended: `A` prints as `A, B`."""
+    from ..flow import flow_of, path_base
+    from .. import persist
+    PRINTER = 'syntax/printer.py'
+    res = RuleResult('C07.W5', 'no printing function returns a list that it also keeps, while consumers of printed output modify it in place', floor=20)
+    mods = [repo.module(PPRINT), repo.module(PRINTER)]
+    consumers = []
+    for m in mods:
+        for f in m.functions.values():
+            flow = flow_of(f.node)
+            params = set(f.params())
+
+            def aliases_argument(e):
+                return isinstance(e, ast.Name) and e.id != 'self' and persist.may_alias(flow, e, params - {'self'})
+            muts = [mu for mu in persist.mutations_of(f.node, aliases_argument)]
+            if muts:
+                consumers.append('%s:%d %s (%s)' % (m.rel, muts[0][0], f.qualname, muts[0][1]))
+    res.info['in_place_consumers'] = consumers
+    glob = {}
+    for m in mods:
+        glob[m.rel] = set(persist.module_containers(m))
+    for m in mods:
+        for f in m.functions.values():
+            if not any(isinstance(n, ast.Return) and n.value is not None for n in walk_no_nested(f.node, include_root=False)):
+                continue
+            flow = flow_of(f.node)
+            params = set(f.params())
+
+            def outlives(e):
+                """the object denoted by e exists before / after the call: reached from a parameter or a module-level table"""
+                if isinstance(e, ast.Name) and e.id in glob[m.rel] and not flow.is_local(e.id):
+                    return True
+                return any(path_base(r) in params or (path_base(r) in glob[m.rel] and not flow.is_local(path_base(r))) for r in flow.resolve(e))
+            kept = {}        # local name -> line where it is stored into something that outlives the call
+            kept_in = []     # containers (source text) that outlive the call and receive list values
+            for n in walk_no_nested(f.node, include_root=False):
+                val, base = None, None
+                if isinstance(n, ast.Assign) and len(n.targets) == 1 and isinstance(n.targets[0], (ast.Subscript, ast.Attribute)):
+                    val, base = n.value, n.targets[0].value
+                elif isinstance(n, ast.Call) and isinstance(n.func, ast.Attribute) and n.func.attr in persist.STORE_METHODS and n.args:
+                    val, base = n.args[-1], n.func.value
+                if val is None or not isinstance(val, ast.Name) or not outlives(base) or not _listish(flow, val.id):
+                    continue
+                kept[val.id] = n.lineno
+                kept_in.append(src(base))
+            bad = []
+            for n in walk_no_nested(f.node, include_root=False):
+                if isinstance(n, ast.Return) and n.value is not None:
+                    if isinstance(n.value, ast.Name) and n.value.id in kept:
+                        bad.append('returns `%s` (line %d), which it stored at line %d' % (n.value.id, n.lineno, kept[n.value.id]))
+                    if isinstance(n.value, ast.Subscript) and src(n.value.value) in kept_in:
+                        bad.append('returns an entry of `%s` (line %d), where it keeps lists' % (src(n.value.value), n.lineno))
+            others = [c for c in consumers if ' %s (' % f.qualname not in c]
+            ok = not bad or not others
+            res.add('%s :: %s :: returns-fresh-output' % (m.rel, f.qualname), ok,
+                    ('no list is both kept and returned' if not bad else 'keeps what it returns, but nothing modifies printed output in place') if ok else
+                    '%s; %s modifies its argument in place: the next reader of the kept list sees the additions (after printing the sequent '
+                    'A, B |- C, the term A prints as `A, B`, which does not parse back to A)' % ('; '.join(bad[:2]), others[0]), f.loc,
+                    nontrivial=bool(bad))
+    return res
+
+
 def rules(repo):
-    return [rule_w1(repo), rule_w2(repo), rule_w3(repo), rule_w4(repo)]
+    return [rule_w1(repo), rule_w2(repo), rule_w3(repo), rule_w4(repo), rule_w5(repo)]
